@@ -16,14 +16,28 @@ Definition preserving (tx : toxic) : Prop :=
   | _ => False
   end.
 
-(** the guard under which a stage neither panics nor diverges (C07 proves it is tight) *)
+(** what the stage transitions need of the attributes in order not to panic or diverge. Since the
+    repairs of F5a-c (jitter clamp, rate test, slicer clamp) this holds of EVERY attribute value:
+    see [attrs_ok_all] below; before them it needed 0 < rate, rate*100 < 2^63 and 0 <= var < avg. *)
 Definition attrs_ok (tx : toxic) : Prop :=
   match tx with
   | TLatency _ jit => latency_jitter_guard jit = true -> 0 < latency_rand_n jit
-  | TBandwidth rate => 0 < rate /\ rate * 100 < two63
-  | TSlicer avg var _ => 0 <= var < avg
   | _ => True
   end.
+
+Lemma maxint_half : godiv 9223372036854775807 2 = 4611686018427387903.
+Proof. vm_compute. reflexivity. Qed.
+Lemma maxint_cent : godiv 9223372036854775807 100 = 92233720368547758.
+Proof. vm_compute. reflexivity. Qed.
+
+Theorem attrs_ok_all tx : attrs_ok tx.
+Proof.
+  destruct tx; simpl; try exact I.
+  unfold latency_jitter_guard, latency_rand_n. rewrite maxint_half.
+  destruct (4611686018427387903 <? jit) eqn:E; intros H.
+  - vm_compute. reflexivity.
+  - rewrite wrap64_id by (unfold two63; lia). lia.
+Qed.
 
 Definition slicer_cov (c : chunk) (rest : list Z) (o tot : Z) : Prop :=
   covers rest o tot /\ zlen (cdata c) = tot - o /\ 0 <= o.
@@ -76,10 +90,10 @@ Proof.
 Qed.
 
 Lemma bw_loop_wf rate (p : chunk) sl now :
-  0 < rate /\ rate * 100 < two63 ->
   wf (TBandwidth rate) (bw_loop rate p sl now) /\ held (bw_loop rate p sl now) = cdata p.
 Proof.
-  intros [Hr Hm]. unfold bw_loop, bw_split_test.
+  unfold bw_loop, bw_split_test. rewrite maxint_cent.
+  destruct ((0 <=? rate) && (rate <=? 92233720368547758)) eqn:Hr; cbn [andb]; [|simpl; auto].
   rewrite wrap64_id by (unfold two63 in *; lia).
   destruct (rate * 100 <? zlen (cdata p)) eqn:E; simpl; [|auto].
   unfold bw_instalment_bytes. rewrite wrap64_id by (unfold two63 in *; lia).
@@ -122,8 +136,8 @@ Proof.
       * specialize (Hok eq_refl). replace (latency_rand_n jit <=? 0) with false in H by lia.
         destruct draws; inversion H; subst; simpl; auto.
       * inversion H; subst; simpl; auto.
-    + inversion H; subst. apply bw_loop_wf. exact Hok.
-    + destruct (slicer_chunk_spec (S (Z.to_nat (zlen (cdata ch)))) avg var 0 (zlen (cdata ch)) draws Hok
+    + inversion H; subst. apply bw_loop_wf.
+    + destruct (slicer_chunk_total (S (Z.to_nat (zlen (cdata ch)))) avg var 0 (zlen (cdata ch)) draws
                  (zlen_nonneg _) ltac:(lia)) as (os & d2 & E & Hcov & _).
       rewrite E in H. inversion H; subst.
       apply slicer_next_wf. unfold slicer_cov. split; [exact Hcov|]. lia.
@@ -169,7 +183,7 @@ Proof.
   - inversion H; subst. simpl. auto.
   - inversion H; subst. simpl. auto.
   - destruct tx; try contradiction. inversion H; subst.
-    destruct (bw_loop_wf rate p sl now Hok) as [W Hh]. rewrite Hh. auto.
+    destruct (bw_loop_wf rate p sl now) as [W Hh]. rewrite Hh. auto.
   - destruct tx; try contradiction. inversion H; subst. simpl. auto.
   - destruct tx; try contradiction. destruct Hps as [k ->]. inversion H; subst.
     unfold limit_after. split; [destruct (limit_close_test _); exact I|].
